@@ -16,6 +16,15 @@ type Lang struct {
 	Name     string
 	Alphabet []byte   // 12-14 "interesting" bytes
 	Seeds    []string // malformed / tricky texts that get 1- and 2-edit mutations
+	// ParserSeeds are additional seeds for the event parsers (C20): small, mostly well-formed
+	// texts with comments in front of, inside and behind constructs whose rules end in optional
+	// (possibly empty) parts, so that pending-token flushing and range trimming are exercised.
+	ParserSeeds []string
+}
+
+// AllSeeds returns Seeds followed by ParserSeeds.
+func (l *Lang) AllSeeds() []string {
+	return append(append([]string{}, l.Seeds...), l.ParserSeeds...)
 }
 
 // Langs lists the five shipped languages. The alphabets contain the bytes that drive the
@@ -37,6 +46,12 @@ var Langs = []*Lang{
 			"s: { /* } */\n// }\n{}\n} t {\n u",                // code block with comments, then unterminated code
 			"p -> q/r ;\n\n%%\n${t}\nv",                        // templates section swallows the rest
 		},
+		ParserSeeds: []string{
+			"language l(go); /*c*/",                           // header only: trailing empty lists, comment before eoi
+			"language l(go);\n:: lexer\nk: /b/ // c\n:: parser\nx: k /*d*/ ;\ny: ;\n",
+			"language l(go); :: lexer\nk: /b/\n:: parser\nz: /*e*/ | k /*f*/ | -> Q ; # g",
+			"language l(go); :: lexer k: 'b' :: parser %input z; z {T}: (k /*h*/)+ ;",
+		},
 	},
 	{
 		Name:     "js",
@@ -51,6 +66,12 @@ var Langs = []*Lang{
 			"x = <a b='c'>t {d} </a>\n y",                      // JSX states
 			"a?.1:b\n?.c .5 0x 1_ \\u",                         // '?.' digit rewind rule, broken numbers/escapes
 		},
+		ParserSeeds: []string{
+			"var v /*c*/ ; let w /*d*/\nu // e\n",              // optional initializer, ASI after a comment
+			"f(a, /*c*/) ;{ /*d*/ } function g(/*e*/) /*f*/ {}", // empty lists around comments
+			"x = `a${/*c*/b}c` /*d*/",                           // comments inside a template substitution
+			"if (a) /*c*/ b; else /*d*/ ;/*e*/ for(;;/*f*/) ; class K /*g*/ {}",
+		},
 	},
 	{
 		Name:     "json",
@@ -63,6 +84,11 @@ var Langs = []*Lang{
 			"/**/ {\"\\u12\": false}\n/*/",                     // broken escape, '/*/' is not a comment
 			"[1.e, 01, -, tru]\n\"\\x\" \n A B",                // broken numbers, keywords, bad escape
 		},
+		ParserSeeds: []string{
+			"{\"a\": [1, /*c*/ 2], /*d*/ \"b\": {}} /*e*/",
+			"/*c*/ [/*d*/] ",
+			"[{/*c*/}, {\"k\" /*d*/ : /*e*/ A}, B]",
+		},
 	},
 	{
 		Name:     "test",
@@ -74,6 +100,11 @@ var Langs = []*Lang{
 			"%q\n% q\n %q 7\n9",                                // 'multiline' token and lastInt at eoi
 			"Zab\\u12 Zfoo \\ \"'\n test-->",                   // invalid_token rules and backtracking token
 			"eval(1.a+b)\n{- - x_ }\x00 ... -> f_a",            // multi-line text
+		},
+		ParserSeeds: []string{
+			"decl1(a.b) /*c*/ decl2 // d\n",
+			"{ -- decl2 /*c*/ } test ( /*d*/ ) eval(1) /*e*/ decl2: /*f*/",
+			"test 7 /*c*/ 9 [ /*d*/ ] if (/*e*/) decl2 else /*f*/ decl2 /*g*/",
 		},
 	},
 	{
@@ -107,12 +138,13 @@ func init() {
 		if len(l.Alphabet) < 12 || len(l.Alphabet) > 14 {
 			panic(fmt.Sprintf("%s: alphabet size %d", l.Name, len(l.Alphabet)))
 		}
-		for i, a := range l.Seeds {
+		all := l.AllSeeds()
+		for i, a := range all {
 			if len(a)-2 <= MaxShortLen+len(BOM) {
 				panic(fmt.Sprintf("%s: seed %d too short", l.Name, i))
 			}
-			for j := i + 1; j < len(l.Seeds); j++ {
-				if d := editDistance(a, l.Seeds[j]); d <= 4 {
+			for j := i + 1; j < len(all); j++ {
+				if d := editDistance(a, all[j]); d <= 4 {
 					panic(fmt.Sprintf("%s: seeds %d and %d are only %d edits apart", l.Name, i, j, d))
 				}
 			}
@@ -214,7 +246,7 @@ func (l *Lang) edits1(s string, emit func(string)) {
 // SeedGroup returns the seed itself plus all its 1-edit (edits == 1) or 1- and 2-edit
 // (edits == 2) mutations, without duplicates, in generation order (seed, 1-edit, 2-edit).
 func (l *Lang) SeedGroup(seed int, edits int) Group {
-	s := l.Seeds[seed]
+	s := l.AllSeeds()[seed]
 	seen := map[string]struct{}{s: {}}
 	out := []string{s}
 	add := func(m string) {
